@@ -230,6 +230,9 @@ func (p *Path) nilness(v ssa.Value) string {
 	for _, l := range p.Lits {
 		x, eq, ok := l.nilTest()
 		if !ok {
+			if sx, isSent := sentinelEq(l.Lit, false); isSent && res == "unknown" && (p.eval(sx, l.At) == v || strip(sx) == v) {
+				res = "nonnil"
+			}
 			continue
 		}
 		// the literal's operand must denote the same value under the path's phi resolution
